@@ -161,6 +161,9 @@ def run(ctx):
     interactive_round(ctx, rng, ni - ni // 3, em)
     vectors_round(ctx, rng, nv - nv // 2, em)
     routes_round(ctx, rng, ctx.n(1500, 30000), em)
+    from .. import conc
+    fl = [["C", v, core.rand_vector(v, rng, p_absent=rng.choice([0.0, 0.5]))] for v in "234" for _ in range(ctx.n(40, 400))]
+    conc.flag_variants(ctx, fl, "emitted-vectors")
     # the Lean regex semantics agrees with Python's re on the emitted strings (validates the Re terms)
     if ctx.model_available:
         sel = list(dict.fromkeys(em))[: ctx.n(6000, 60000)]
